@@ -5,6 +5,11 @@ import sys
 import time
 import z3
 
+for _kv in os.environ.get("VERIF_Z3_GLOBAL", "").split(","):
+    if "=" in _kv:
+        _k, _v = _kv.split("=", 1)
+        z3.set_param(_k.strip(), _v.strip())
+
 from .vals import *
 from .arith import IntMode, BVMode, simp, bnot, band, bor, ite, norm
 
@@ -293,15 +298,19 @@ class Executor:
         """returns 'sat' | 'unsat' | 'unknown' for pc /\\ extra"""
         t0 = time.time()
         self.sync_solver(st)
-        if extra is not None and extra is not True:
-            self.solver.push()
-            self.solver.add(extra)
-            r = self.solver.check()
-            self._last_model = self.solver.model() if r == z3.sat else None
-            self.solver.pop()
-        else:
-            r = self.solver.check()
-            self._last_model = self.solver.model() if r == z3.sat else None
+        self._wd_arm()
+        try:
+            if extra is not None and extra is not True:
+                self.solver.push()
+                self.solver.add(extra)
+                r = self.solver.check()
+                self._last_model = self.solver.model() if r == z3.sat else None
+                self.solver.pop()
+            else:
+                r = self.solver.check()
+                self._last_model = self.solver.model() if r == z3.sat else None
+        finally:
+            self._q_start = None
         self.stats.queries += 1
         dt = time.time() - t0
         self.stats.solver_time += dt
@@ -309,6 +318,60 @@ class Executor:
         if res == "unknown":
             self.stats.unknown += 1
         return res
+
+    # ------------------------------------------------------------------ wall-clock watchdog for single queries
+    # rlimit is the (deterministic) budget of every query, but some z3 5.1 arithmetic sub-procedures (dioph_eq on
+    # big numerals) do not count against it and were seen to run for > 15 min on mutated trees. A per-process
+    # thread interrupts a query that exceeds VERIF_QWALL seconds (the query then answers "unknown", which is never
+    # success); if the interrupt is not honoured within 60 s the process records what it has and exits.
+    _q_start = None
+    _wd_pid = None
+    _child_out = None
+
+    def _wd_arm(self):
+        import os
+        self._q_start = time.time()
+        if self._wd_pid == os.getpid():
+            return
+        self._wd_pid = os.getpid()
+        import threading
+        lim = float(os.environ.get("VERIF_QWALL", self.cfg.get("qwall", 420)))
+
+        def watch():
+            fired_for = None
+            while True:
+                time.sleep(min(5.0, max(0.05, lim / 4)))
+                qs = self._q_start
+                if qs is None:
+                    fired_for = None
+                    continue
+                el = time.time() - qs
+                if el > lim and fired_for != qs:
+                    fired_for = qs
+                    self.inconclusive.append("solver query exceeded %d s wall-clock (interrupted)" % lim)
+                    try:
+                        self.solver.ctx.interrupt()
+                    except Exception:
+                        pass
+                elif el > lim + 60 and fired_for == qs:
+                    self.inconclusive.append("solver did not honour the interrupt; sub-tree abandoned")
+                    self._emergency_exit()
+
+        threading.Thread(target=watch, daemon=True).start()
+
+    def _emergency_exit(self):
+        import os
+        try:
+            if self._child_out:
+                out = {"stats": self.stats.to_dict(), "violations": [v.asdict() for v in self.violations], "inconclusive": self.inconclusive}
+                with open(self._child_out, "w") as f:
+                    json.dump(out, f, default=str)
+        finally:
+            try:
+                if self._child_out and self.slots is not None:
+                    self.release_slot()
+            finally:
+                os._exit(3)
 
     # ------------------------------------------------------------------ second-solver cross-check (thorough tier)
     def cross_check(self, st, bad, label):
@@ -722,6 +785,14 @@ class Executor:
         children = []
         base_depth = len(st0.frames) - 1 if init_mode else 0
         par = (not init_mode) and self.slots is not None
+        if par and self._child_out is None and not self._delegated:
+            # the top-level process of a harness only waits: the whole exploration runs in a child that takes over
+            # this process's CPU slot, so that a stalled solver call can be abandoned without losing the harness
+            self._delegated = True
+            self.collect(*self.spawn(st0))
+            with self.slots.get_lock():
+                self.slots.value += 1   # the child gave the slot back; this process's caller releases it again
+            return finals
         while work:
             if par and len(work) >= 2:
                 while len(work) >= 2 and self.acquire_slot():
@@ -750,6 +821,7 @@ class Executor:
             self.collect(pid, path)
         return finals
 
+    _delegated = False
     slots = None      # multiprocessing.Value shared by all workers (number of busy processes)
     max_procs = 16
 
@@ -774,6 +846,7 @@ class Executor:
             return (pid, path)
         # ---- child
         code = 0
+        self._child_out = path
         try:
             self.stats = Stats()
             self.violations = []
